@@ -345,8 +345,13 @@ def check(ctx):
     # ---------------------------------------------------------------- SIB-6
     s1 = repo.fn(f"{DF}._split_join_by")
     s2 = repo.fn(f"{LOD}._split_join_by")
-    d1 = [dump(x) for x in alpha(s1.node).body if not (isinstance(x, ast.Expr) and isinstance(x.value, ast.Constant))]
-    d2 = [dump(x) for x in alpha(s2.node).body if not (isinstance(x, ast.Expr) and isinstance(x.value, ast.Constant))]
+    def _core(fn_):
+        # the splitting logic itself: docstrings and leading argument validations (`if ...: raise`) aside
+        body = [x for x in alpha(fn_.node).body if not (isinstance(x, ast.Expr) and isinstance(x.value, ast.Constant))]
+        while body and isinstance(body[0], ast.If) and not body[0].orelse and all(isinstance(y, ast.Raise) for y in body[0].body):
+            body = body[1:]
+        return [dump(x) for x in body]
+    d1, d2 = _core(s1), _core(s2)
     ctx.ob("SIB-6", s1, "_split_join_by: DataFrame == ListOfDicts", s1.node, d1 == d2,
            "both classes split by-tuples identically" if d1 == d2 else "DataFrame and ListOfDicts split (left,right) keys differently",
            nontrivial=False, clause="key columns may be named differently on the two sides")
